@@ -181,6 +181,23 @@ fn vm_tj_cases(s: &mut Session, rng: &mut Rng) {
         }
     }
     s.mark_nontrivial();
+    // several inbounds in one process, each with its own users: an id registered with one is a stranger to the other
+    s.begin_case("vmess:two-inbounds");
+    let (u1, u2) = (random_uuid(rng), random_uuid(rng));
+    for (client_id, server_id, ok) in [(&u1, &u1, true), (&u2, &u2, true), (&u1, &u2, false), (&u2, &u1, false), (&u2, &u2, true)] {
+        let (c, sv) = (s.fresh("c"), s.fresh("s"));
+        let addr = random_addr(rng);
+        s.run(&format!("vm.client {} uuid={} cipher=aes-128-gcm cmd=tcp addr={}", c, client_id, addr));
+        s.run(&format!("vm.server {} users=only:{}", sv, server_id));
+        let Some(w) = encode_all(s, &c, &[b"payload".to_vec()]) else { return };
+        let d = feed_all(s, &sv, &[w], true);
+        if ok && d.connect.as_deref() != Some(addr.as_str()) {
+            s.oracle_fail("vmess:control", "an inbound did not accept its own registered user id");
+        } else if !ok {
+            must_refuse(s, "vmess", "a request of a user id registered with another inbound only", &d);
+        }
+    }
+    s.mark_nontrivial();
     s.begin_case("trojan");
     let pw = "correct horse battery";
     let pw = pw.replace(' ', "-");
@@ -354,4 +371,7 @@ pub fn generate(s: &mut Session, tier: &str, rng: &mut Rng) {
         s.run(&format!("e2e.stop {}", w));
         s.mark_nontrivial();
     }
+    // a user table whose keys cannot be used must stop the start-up: a server that skipped them would serve whoever
+    // holds the server key alone
+    crate::c16::bad_user_keys(s, rng);
 }
